@@ -13,7 +13,8 @@ Clauses
   ill-formed:   a named mutation of a well-formed template (delete/add an end, unterminated {{ {% {#,
                 empty tag, unknown operator, else/elif/except/finally under the wrong parent, break/
                 continue outside a loop or in an apply inside a loop, extends/include/set/import/block/
-                apply without argument, invalid whitespace mode, autoescape without a function) must
+                apply without argument, invalid whitespace mode, autoescape without a function, every kind
+                of block left open at a cut position followed by a text tail such as '{', '{{!', '{{') must
                 raise ParseError whose filename is the mutated file and whose lineno is the line of the
                 offending tag (the offending tag is on one line); for a deleted/added nested end only
                 opener_line <= lineno <= last_line is required.
@@ -32,7 +33,7 @@ Open findings on the current tree (known_findings.d/C19.json, findings_inbox/C19
 without a function is accepted and turns escaping off; `{% whitespace <bad mode> %}` raises a bare
 Exception; "block missing name"/"apply missing method name" name the line of the matching end tag.
 
-Sensitivity (quick tier, seed 1, scratch copy of /repo/tornado/template.py; all 11 caught):
+Sensitivity (quick tier, seed 1, scratch copy of /repo/tornado/template.py; all 12 caught):
   M1 _IntermediateControlBlock writes the else/elif/except line at indent_size() instead of -1 -> C19.wellformed_rejected (SyntaxError)
   M2 '{{!' escape consumes two characters instead of one                                     -> C19.output
   M3 filter_whitespace("single") replaces newline runs by " " instead of "\n"                -> C19.output
@@ -47,6 +48,10 @@ Sensitivity (quick tier, seed 1, scratch copy of /repo/tornado/template.py; all 
       branch): a/page and b/page both including 'part.html' share one cached template;          (first generated case; C20's "dirs"
       was missed before the directory-structured part "dirs" (2-3 directories, same relative    part catches it as C20.output too)
       names, histories of entry points through ONE loader) was added
+  M12 _parse: a lone '{' as the last character returns without the "Missing {% end %}" check     -> C19.illformed_no_parse_error
+      (`{% if t %}{` compiles silently); was missed before the mutation "unterminated_block_tail"     (ill_open_block_lone_brace_tail),
+      (if/for/while/block/apply/try left open x tails '', '{', 'x{', '{{!', '{%!{', '{{', '{%',      seeds 1, 2, 3
+      '{#', '{{ n', ... at a generated cut position) was added
 """
 import logging
 
@@ -67,7 +72,7 @@ RULE = (
     "(never containing '}}' or '%}'), set/import, if/elif/else, for/else, counter-bounded while/else, "
     "break/continue, try/except/else/finally with raising expressions, apply, comments, autoescape and "
     "whitespace directives, '{{!' '{%!' '{#!' escapes, runs of 3-5 braces, blocks; loader autoescape/whitespace "
-    "settings; part 'illformed' applies one of 14 named ill-forming mutations at a generated position; part 'dirs': "
+    "settings; part 'illformed' applies one of 15 named ill-forming mutations at a generated position; part 'dirs': "
     "template sets over 2-3 directories with colliding relative names and a history of 2-6 loads through one loader.  "
     "non-trivial = directives nested >= 2 deep, or inheritance/include, or an escape sequence adjacent to a "
     "brace, or an ill-forming mutation; distinct = SHA-1 of the case"
